@@ -10,11 +10,50 @@ package pod_group
 // preemptibility": spec.preemptibility, else the priority class read from the cluster). Naming only.
 //@ declare preemptibleNow(pg *v2alpha2.PodGroup) bool
 
-//@ func IsPreemptible
+//@ import constants "github.com/NVIDIA/KAI-scheduler/pkg/common/constants"
+//@ import pg "github.com/NVIDIA/KAI-scheduler/pkg/common/podgroup"
+// C20 "status.resourcesStatus ... computed from the CURRENT priority class / preemptibility": the priority of a pod
+// group is resolved in a fixed order: the class it names; if that class does not exist (also: no class named) the
+// cluster's global-default class; only if there is none the system default. (IsPreemptible was `trusted` before; a
+// round-4 seeded change that skipped the global default for an empty class name was missed for that reason.)
+// The two look-ups go through client.Client (Get / List into local objects): trusted, their answers are only NAMED.
+//@ declare isNotFoundErr(e error) bool
+//@ declare specificErr(name string) error
+//@ declare specificVal(name string) int
+//@ declare globalErr() error
+//@ declare globalVal() int
+//@ func k8s.io/apimachinery/pkg/api/errors.IsNotFound
+//@   props C20
+//@   pure
+//@   ensures result == isNotFoundErr(err)
+//@ end
+//@ func getSpecificPriorityClass
 //@   props C20
 //@   trusted
-//@   note body outside the subset: reads PriorityClass objects through client.Client (Get/List into local objects, errors.IsNotFound); assumed frame: writes nothing that existed before the call. [current] only names the answer.
+//@   note reads one PriorityClass through client.Client.Get into a local object; assumed frame: writes nothing that existed before; the answer is only named (function of the class name for the duration of one reconcile)
+//@   ensures result1 == specificErr(priorityClassName) && (result1 == nil ==> result0 == specificVal(priorityClassName))
+//@ end
+//@ func getGlobalDefaultPriorityClass
+//@   props C20
+//@   trusted
+//@   note lists the PriorityClasses through client.Client.List into a local list and returns the value of the first one marked globalDefault, NotFound if there is none; assumed frame: writes nothing that existed before; the answer is only named
+//@   ensures result1 == globalErr() && (result1 == nil ==> result0 == globalVal())
+//@ end
+//@ func getPodGroupPriority
+//@   props C20
+//@   requires podGroup != nil
+//@   ensures [namedClassWins] specificErr(podGroup.Spec.PriorityClassName) == nil ==> result1 == nil && result0 == specificVal(podGroup.Spec.PriorityClassName)
+//@   ensures [globalDefaultNext] specificErr(podGroup.Spec.PriorityClassName) != nil && isNotFoundErr(specificErr(podGroup.Spec.PriorityClassName)) && globalErr() == nil ==> result1 == nil && result0 == globalVal()
+//@   ensures [systemDefaultLast] specificErr(podGroup.Spec.PriorityClassName) != nil && isNotFoundErr(specificErr(podGroup.Spec.PriorityClassName)) && globalErr() != nil && isNotFoundErr(globalErr()) ==> result1 == nil && result0 == constants.DefaultPodGroupPriority
+//@   ensures [lookupFailureIsAnError] (specificErr(podGroup.Spec.PriorityClassName) != nil && !isNotFoundErr(specificErr(podGroup.Spec.PriorityClassName))) || (specificErr(podGroup.Spec.PriorityClassName) != nil && globalErr() != nil && !isNotFoundErr(globalErr())) ==> result1 != nil
+//@ end
+// the priority the resolution order above yields (defined when no look-up failed)
+//@ define resolvedPriority(g *v2alpha2.PodGroup) int = ite(specificErr(g.Spec.PriorityClassName) == nil, specificVal(g.Spec.PriorityClassName), ite(globalErr() == nil, globalVal(), constants.DefaultPodGroupPriority))
+//@ func IsPreemptible
+//@   props C20
 //@   requires podGroup != nil
 //@   ensures [errorMeansFalse] result1 != nil ==> !result0
-//@   ensures [current] result1 == nil ==> result0 == preemptibleNow(podGroup)
+//@   trust [current] result1 == nil ==> result0 == preemptibleNow(podGroup)
+//@   note [current] only NAMES the answer for the callers' folds (an uninterpreted predicate of the pod group); what the answer is, is the verified clause below
+//@   ensures [preemptibleFromSpecElseResolvedPriority] result1 == nil ==> (result0 <==> pg.CalculatePreemptibility(podGroup.Spec.Preemptibility, resolvedPriority(podGroup)) == v2alpha2.Preemptible)
 //@ end
